@@ -356,18 +356,68 @@ def check_archive(tools, data, opts, workdir, tag, fixpoint=True):
         return ("gnu-tar-names", "GNU tar lists other names than Python tarfile: %r" % (sorted(gn ^ set(obs))[:4],)), stats
     stats["roundtrip"] = 1
     if fixpoint and all(k in FIXPOINT_OK for k, v in opts.items() if v) and opts.get("t2s_root") == opts.get("s2t_root"):
+        # img1 = tar2sqfs(data), t1 = sqfs2tar(img1); img2 = tar2sqfs(t1), t2 = sqfs2tar(img2); img3, t3 likewise.
+        # The property: converting an image to tar and back gives semantically the same image (img2 ~ img1, i.e.
+        # t2 ~ t1 member by member), doing it twice reproduces the first result byte for byte (img3 == img2, t3 == t2).
+        # t2 == t1 byte for byte is NOT implied: the xattr writer stores the pairs of an inode sorted by the index
+        # of the key in the image-wide key table (first appearance while the archive is read), and that table is
+        # built in archive order for img1 but in tree order for img2 — entries that share keys may list them in
+        # another order in t2 than in t1 (coq: xattr_order_may_settle).  Nothing else may differ.
         try:
             img2, t2, _ = convert(tools, t1, opts, workdir, tag + "-2")
             if t2 != t1:
-                return ("fixpoint-tar", "second conversion differs from the first (tar %s vs %s): %s" % (
-                    sha(t1)[:12], sha(t2)[:12], first_tar_diff(t1, t2))), stats
+                d = member_diff(t1, t2)
+                if d:
+                    return ("fixpoint-tar", "second conversion differs from the first (tar %s vs %s): %s" % (
+                        sha(t1)[:12], sha(t2)[:12], d)), stats
+                stats["xattr_order_settled"] = 1
             img3, t3, _ = convert(tools, t2, opts, workdir, tag + "-3")
+            if t3 != t2:
+                only_order = member_diff(t2, t3) is None
+                return ("fixpoint-xattr-order" if only_order else "fixpoint-tar",
+                        "third conversion differs from the second (tar %s vs %s)%s: %s" % (
+                            sha(t2)[:12], sha(t3)[:12],
+                            ", only in the order of the SCHILY.xattr records" if only_order else "",
+                            first_tar_diff(t2, t3))), stats
             if sha_file(img2) != sha_file(img3):
                 return ("fixpoint-image", "image of the third conversion differs from the second"), stats
         except RuntimeError as e:
             return ("reconvert-fails", "sqfs2tar output is refused on the way back: %s" % e), stats
         stats["fixpoint"] = 1
     return None, stats
+
+
+def members(data):
+    """the archive member by member, in order; xattrs as a set"""
+    out = []
+    with tarfile.open(fileobj=io.BytesIO(data), mode="r:") as tf:
+        for m in tf:
+            body = None
+            if m.isreg() or m.type == tarfile.GNUTYPE_SPARSE:
+                f = tf.extractfile(m)
+                body = sha(f.read()) if f is not None else None
+            out.append((m.name, m.type, m.mode, m.uid, m.gid, m.mtime, m.size, m.linkname, m.devmajor, m.devminor,
+                        tuple(sorted((k, v) for k, v in m.pax_headers.items())), body))
+    return out
+
+
+def member_diff(a, b):
+    """None if the two archives hold the same members in the same order with the same metadata, contents and
+    xattr SETS (so that they can differ in the order of the xattr records only), else a description"""
+    if len(a) != len(b):
+        return "lengths differ: %d vs %d bytes" % (len(a), len(b))
+    try:
+        ma, mb = members(a), members(b)
+    except Exception as e:
+        return "Python tarfile cannot read one of them: %r" % (e,)
+    if len(ma) != len(mb):
+        return "%d vs %d members" % (len(ma), len(mb))
+    for x, y in zip(ma, mb):
+        if x != y:
+            f = next(i for i in range(len(x)) if x[i] != y[i])
+            names = ("name", "type", "mode", "uid", "gid", "mtime", "size", "linkname", "devmajor", "devminor", "pax records", "contents")
+            return "member %r: %s %r vs %r" % (x[0][:60], names[f], str(x[f])[:120], str(y[f])[:120])
+    return None
 
 
 def first_tar_diff(a, b):
